@@ -133,6 +133,9 @@ def run_seq(path, passthrough, transform, fallback, deprecated, seq):
                     again = o.a
                 if again is got:
                     return "%s: two reads with a missing target returned the same fallback object (not a fresh copy each time)" % where
+                for part_f, part_g, part_a in zip(fallback, got, again):
+                    if isinstance(part_f, list) and (part_g is part_f or part_a is part_f or part_a is part_g):
+                        return "%s: a mutable part of the fallback is shared between the fallback and / or two reads (the copy handed out is not fresh below the top level)" % where
         elif op in ("assign", "assign_none"):
             val = None if op == "assign_none" else "v%d" % i
             if exc is not None:
@@ -198,7 +201,7 @@ def search(n):
     cases = 0
     for path in PATHS:
         for pt, tr, dep in itertools.product([False, True], repeat=3):
-            for fb in (MISSING, [1], None):
+            for fb in (MISSING, [1], [[1]], None):
                 for L in range(1, n + 1):
                     for seq in itertools.product(OPS, repeat=L):
                         cases += 1
